@@ -43,6 +43,20 @@ class Nlp:
                     seen.add(h); extras.append(sv)
         self.extras = extras
         self.n_extra = sum(e.numel() for e in extras)
+        # inactive *parameters* (not part of opti.p because no row uses them) keep their set value
+        self.extra_fixed = {}
+        if extras:
+            try:
+                pars = set(hash(e) for e in self.opti.advanced.symvar(ca.vertcat(*[ca.vec(e) for e in extras]), ca.OPTI_PAR))
+            except Exception:
+                pars = set()
+            o = 0
+            for e in extras:
+                if hash(e) in pars:
+                    val = np.array(self.opti.debug.value(e, self.opti.initial())).reshape(-1, order="F")
+                    for j in range(e.numel()):
+                        self.extra_fixed[o + j] = float(val[j])
+                o += e.numel()
         ex = ca.vertcat(*[ca.vec(e) for e in extras]) if extras else ca.MX(0, 1)
         self.rb_names = names
         self.rb_shapes = [e.shape for e in exprs]
@@ -58,6 +72,10 @@ class Nlp:
         p = self.p0 if p is None else p
         if extra is None:
             extra = np.zeros(self.n_extra)
+        if self.extra_fixed:
+            extra = np.array(extra, dtype=float)
+            for i, v in self.extra_fixed.items():
+                extra[i] = v
         out = self.R(w, p, extra)
         if not isinstance(out, (list, tuple)):
             out = [out]
@@ -151,7 +169,7 @@ def vacuous(r):
     return (r["kind"] == "ineq" and fp[0] >= 0) or (r["kind"] == "eq" and abs(fp[0]) < 1e-13)
 
 
-def match_rows(real_rows, ref_rows, tol=1e-8, set_origins=("grid", "Tpos")):
+def match_rows(real_rows, ref_rows, tol=1e-8, set_origins=("grid", "Tpos"), prop_origins=()):
     """Multiset matching of canonical rows; set-semantics (up to positive scaling) for the
     origins in set_origins.  Returns (missing_ref_rows, extra_real_rows)."""
     used = [False] * len(real_rows)
@@ -165,6 +183,8 @@ def match_rows(real_rows, ref_rows, tol=1e-8, set_origins=("grid", "Tpos")):
                 continue
             if close(q["fp"], r["fp"], tol) or (r["kind"] == "eq" and close(q["fp"], -r["fp"], tol)):
                 hit = j; break
+            if r["origin"].split(":")[0] in prop_origins and proportional(q["fp"], r["fp"], r["kind"], tol):
+                hit = j; break      # internal rows: scale is an implementation choice (one positive constant per row)
         if hit is None:
             if vacuous(r):
                 r["vacuous"] = True     # constant and satisfied: rockit legitimately drops such rows
